@@ -48,9 +48,13 @@ theorem transport_not_exceeded (g : Glue) (now : Int) (e : Entry) (reqCC resCC :
   | none => simp
   | some m =>
     simp only [hm] at h ⊢
-    by_cases h0 : m = 0
-    · simp [h0] at h
-    · simp [h0]
+    split at h
+    · rename_i hc
+      simp only [hc, ↓reduceIte, true_and]
+      intro h0
+      cases h0
+      simp at hc
+    · cases h
 
 theorem currentAge_le_max (g : Glue) (now : Int) (e : Entry) : currentAge g now e ≤ maxI64 := by
   unfold currentAge satAdd; exact sat_le_max _
